@@ -33,3 +33,14 @@ pub const REGISTRY: &[Prop] = &[
     Prop { id: "C16", level: "exploration", watchdog_quick_s: 600, watchdog_thorough_s: 3600, run: c16_take_segments::run },
     Prop { id: "C25", level: "exploration", watchdog_quick_s: 1800, watchdog_thorough_s: 7200, run: c25_reprobe::run },
 ];
+
+/// In-target oracles of the libFuzzer targets (see /verif/fuzzing/fuzz).  Panics on a violation.
+pub fn fuzz_entry(target: &str, data: &[u8]) {
+    let out = match target {
+        "c02_bytes" => c02_encodings::fuzz_bytes(data),
+        other => panic!("unknown fuzz target {other}"),
+    };
+    if let crate::engine::Outcome::Violation { signature, detail } = out {
+        panic!("VIOLATION {signature}: {detail}");
+    }
+}
